@@ -1455,7 +1455,7 @@ class TractList(_TRSTractList):
                 if isinstance(elem, dict):
                     elem = ','.join([f"{k}:{v}" for k, v in elem.items()])
                 elif isinstance(elem, (list, tuple)):
-                    elem = ', '.join(elem)
+                    elem = ', '.join(str(e) for e in flatten(elem))
                 scrubbed.append(elem)
             return scrubbed
 
